@@ -68,6 +68,26 @@ fn main() {
                 None => println!("{{\"property\":\"{}\",\"checks\":0,\"nontrivial\":0,\"failures\":[],\"stats\":{{}},\"samples\":[],\"none\":true}}", args[2]),
             }
         }
+        // pgh unaligned <hexfile> <shift>: parse the buffer at an address = shift (mod 8) and print it
+        "unaligned" if args.len() == 4 => {
+            let hex = std::fs::read_to_string(&args[2]).expect("read hex");
+            let b = proto::unhex(hex.trim()).expect("hex");
+            let shift: usize = args[3].parse().expect("shift");
+            let store: &'static mut [u64] = Box::leak(vec![0u64; (b.len() + 7) / 8 + 2].into_boxed_slice());
+            let base = store.as_mut_ptr() as *mut u8;
+            let p: &'static [u8] = unsafe {
+                std::ptr::copy_nonoverlapping(b.as_ptr(), base.add(shift), b.len());
+                std::slice::from_raw_parts(base.add(shift) as *const u8, b.len())
+            };
+            match proguard::ProguardCache::parse(p) {
+                Ok(c) => {
+                    println!("accepted");
+                    println!("{:?}", c);
+                    println!("{}", c.display());
+                }
+                Err(e) => println!("rejected: {}", e),
+            }
+        }
         "deepprobe" => {
             println!("{}", oracles::deep_probe().to_json("deepprobe"));
         }
